@@ -33,6 +33,11 @@ Gainers == {a \in Accts : feebal'[a] > feebal[a]}
 Judge(k) ==
   IsStep(k) =>
   LET ev == ln(k).ev IN
+  (* a restart from the chain's own exported genesis keeps the replay guards and everything else of the bridge (chain names of every *)
+  (* admissible shape: the TSS counterparty's name contains . _ + - # [ ] < >)                                                      *)
+  /\ Report(k, "C01.RestartKeepsReceipts", ev = "Regenesis" => (OK(k) /\ rcpt' = rcpt /\ ackrel' = ackrel))
+  /\ Report(k, "C06.RestartKeepsRegistry", ev = "Regenesis" => (reg' = reg /\ ver' = ver /\ upd' = upd /\ tssacct' = tssacct))
+  /\ Report(k, "C04.RestartKeepsSequences", ev = "Regenesis" => (ln(k).st.sent = sent /\ acked' = acked))
   (* C04 for a destination behind a TSS client: a successful send takes the next sequence and leaves its commitment, *)
   (* the hash of the emitted packet bytes - whatever the type of the destination's client                            *)
   /\ Report(k, "C04.TssSendCommits", (ev = "Send" /\ OK(k)) => (ln(k).st.sent = sent + 1 /\ (sent + 1) \in SeqSet(ln(k).st.commits)))
@@ -77,6 +82,7 @@ C_Step(k) ==
                      /\ acked' = (IF AckOK(A(k).signer, A(k).seq, A(k).rel) THEN acked \cup {A(k).seq} ELSE acked)
                      /\ UNCHANGED <<reg, ver, upd, rcpt, ackrel, sent>>
     [] ev = "Priv" -> UNCHANGED <<reg, ver, upd, rcpt, ackrel, sent, acked>>
+    [] ev = "Regenesis" -> OK(k) /\ UNCHANGED <<reg, ver, upd, rcpt, ackrel, sent, acked, tssacct>>
     [] ev = "Rotate" -> OK(k) /\ tssacct' = A(k).to /\ UNCHANGED <<reg, ver, upd, rcpt, ackrel, sent, acked>>
     [] OTHER -> FALSE
 Conform(k) == IsStep(k) => (C_Step(k) \/ PrintT(<<"DRIFT", k, ln(k).ev>>))
